@@ -24,7 +24,7 @@ RULE = ("one case = one collider spec (10 types + Margin, all rotation classes i
         "non-trivial = rotation is not the identity or the shape is not a sphere; distinct = distinct spec hashes")
 ASSUMPTIONS = ["oracle support values (closed forms) are correct",
                "RigidBody.aabb() is specified in the world frame (property text)"]
-MIN_EVENTS = {"aabb_calls": 2000, "free_fn_calls": 1500, "pair_overlap_checks": 100, "rigid_body_checks": 50}
+MIN_EVENTS = {"aabb_calls": 2000, "free_fn_calls": 1500, "pair_overlap_checks": 100, "rigid_body_checks": 50, "aabb_after_update_pose": 300}
 CASE_TIMEOUT_S = 120
 
 
@@ -126,6 +126,27 @@ def run_case(rng, idx, tier):
         viol.append({"key": dict(key, fn="collider.aabb", kind="exception", exc=type(e).__name__), "err": None,
                      "msg": "aabb() raised %s: %s" % (type(e).__name__, str(e)[:200])})
         box = None
+    base0 = spec["base"] if spec["kind"] == "margin" else spec
+    if box is not None and gen.target_pose(base0) is not None and rng.random() < 0.3:
+        # the broad phase calls aabb() after every update_pose: move the collider (fresh array / stack slice / re-used
+        # buffer overwritten in place; small and large motions) and judge the new box against the oracle at the new pose
+        G = O.pose(gen.rand_rot(rng, "tiny" if rng.random() < 0.2 else None), rng.normal(size=3) * (1e-3 if rng.random() < 0.2 else 1.0))
+        spec_m = O.moved(spec, G)
+        bm = spec_m["base"] if spec_m["kind"] == "margin" else spec_m
+        o_m = O.oracle(spec_m)
+        R_m = _rot_of(spec_m)
+        key_m = {"shape": kind, "margin": spec["kind"] == "margin", "rot_axis_aligned": _axis_aligned(R_m)}
+        if kind == "ellipsoid" and not key_m["rot_axis_aligned"]:
+            key_m["_known_blind"] = True
+        try:
+            mode = gen.apply_pose(col, gen.target_pose(bm), rng)
+            ev["aabb_after_update_pose"] = ev.get("aabb_after_update_pose", 0) + 1
+            _judge_box(col.aabb(), oracle_aabb(o_m), O.scene_L([o_m]), dict(key_m, fn="collider.aabb"), viol, worst,
+                       "%s.aabb() after update_pose (%s)" % (O.name(spec), mode))
+        except Exception as e:  # noqa: BLE001
+            viol.append({"key": dict(key_m, fn="collider.aabb", kind="exception", exc=type(e).__name__), "err": None,
+                         "msg": "aabb() after update_pose raised %s: %s" % (type(e).__name__, str(e)[:200])})
+        col = gen.build(spec)
     if spec["kind"] == "margin" and box is not None:
         try:
             inner = np.asarray(col.collider.aabb(), float)
